@@ -28,6 +28,11 @@ def run(chk, replay=None):
     run2.require_ok()
     chk.note_tlc(run2)
     chk.absorb(recs, verdicts, rp)
+    # the ordering / gate laws for ALL integer triples (Apalache, symbolic; an extra on top of the TLC cube)
+    r = vcheck.apalache_laws('NixVersionLaws')
+    chk.extra['apalache_unbounded_laws'] = r
+    if r == 'Error':
+        raise vcheck.MachineryError('Apalache refutes the version laws of the specification')
     chk.exhaustive = True
     chk.traces_validated = chk.evaluations
     chk.assumptions += ['version attribute rewritten with the HDF5 C API as native int[3]',
